@@ -132,10 +132,44 @@ def rule_P1(ctx):
     rets = [r for r in own_nodes(fn) if isinstance(r, ast.Return)]
     ok = len(rets) == 1 and norm(rets[0].value) == "result"
     ctx.ob("P1", fn, "the routine returns the accumulated list", ok, "", inst="returns")
-    cd = ctx.fn("smpl_extract/cdda/image.py", "CompactDiskAudioImage.combine_stereo_routine", "P1")
+
+
+# ------------------------------------------------------------------------ P8
+def rule_P8(ctx):
+    """the sample routine a CDDA image hands to the exporter (looked up through the class hierarchy) passes tracks through:
+    tracks are already stereo, and two titles ending in L / R must not be merged into one 4-channel sample"""
+    cls = ctx.prog.klass("smpl_extract/cdda/image.py", "CompactDiskAudioImage", "P8")
+    cd = ctx.prog.find_method(cls, "combine_stereo_routine")
+    if cd is None:
+        raise AnalysisError("P8", "smpl_extract/cdda/image.py:CompactDiskAudioImage", "no combine_stereo_routine in the class hierarchy (anchor vanished)")
+    owner = getattr(getattr(cd, "_parent", None), "name", "?")
     rets = [r for r in own_nodes(cd) if isinstance(r, ast.Return)]
-    ok = len(rets) == 1 and norm(rets[0].value) in ("result", cd.args.args[1].arg) and not [c for c in own_nodes(cd) if isinstance(c, ast.Call)]
-    ctx.ob("P1", cd, "CDDA tracks (already stereo) are passed through unchanged", ok, "", inst="cdda-passthrough")
+    params = [a.arg for a in cd.args.args]
+    from .sem import single_defs
+    defs = single_defs(cd)
+
+    def resolves_to_param(e, depth=0):
+        if isinstance(e, ast.Name) and len(params) > 1 and e.id == params[1]:
+            return True
+        if isinstance(e, ast.Name) and e.id in defs and depth < 3:
+            return resolves_to_param(defs[e.id], depth + 1)
+        return False
+
+    ok = len(rets) >= 1 and all(r.value is not None and resolves_to_param(r.value) for r in rets) and not [c for c in own_nodes(cd) if isinstance(c, ast.Call)]
+    ctx.ob("P8", cd, "CDDA tracks (already stereo) are passed through unchanged", ok,
+           "" if ok else f"CompactDiskAudioImage uses {owner}.combine_stereo_routine, which is not a pass-through: tracks whose titles differ only in a final L / R are merged",
+           inst="cdda-passthrough", file=getattr(cd, "_module", None).path if getattr(cd, "_module", None) else None)
+    # and this is the routine export registers
+    ex = ctx.fn("smpl_extract/actions.py", "export_samples_to_wav", "P8")
+    img = ex.args.args[0].arg
+    okr, n_reg = True, 0
+    for p in run_paths(ctx, ex, rule="P8"):
+        for c, e, st in calls_on(p, name="ExportManager"):
+            n_reg += 1
+            k = evaluator(ctx, ex, e).ev(c).key()
+            okr = okr and f"combine_stereo:{img}.combine_stereo_routine" in k
+    okr = okr and n_reg >= 1
+    ctx.ob("P8", ex, "export registers the image's own combine_stereo_routine as the sample routine", okr, "", inst="export-registers-routine")
 
 
 # ------------------------------------------------------------------------ P2
